@@ -13,11 +13,20 @@ import SxVerif.Props.C07
 import SxVerif.Generated.StagesEngine
 import SxVerif.Generated.Constants
 import SxVerif.Generated.Problems
+import SxVerif.Generated.Wiring
 
 namespace SxVerif.C12
 open SxVerif.Engine SxVerif.Generated SxVerif.StageDesc
 
 theorem translator_clean : translatorProblems = [] := by decide
+
+/-- (T) the capture socket is not torn down under a reader: the receiver goroutine of a packet scan is not
+    interrupted by the context (it sits in poll) and outlives the engine run that started it, while
+    `startPacketScanEngine` closes the socket — unmapping its ring — as soon as the run is over (after the exit
+    delay, after Ctrl-C, and once per port chunk).  `afpacket.Source` serialises reads with `Close`, answers
+    io.EOF afterwards and hands out copies, so no read touches unmapped memory (before the fix a reply arriving
+    at that moment was a SIGSEGV; the dynamic side is the reply-flood case of component `e2e`). -/
+theorem capture_source_safe_against_close : readSafeAgainstClose = true := by decide
 
 /-- (T) the side conditions of the generic theorems, decided on the regenerated stage descriptors:
     `SingleCloser`, `CloseAfterSenders`, `GuardedOnReturnPath`, the guards the transition system
